@@ -90,7 +90,7 @@ func specialVals(r *core.Rand, c model.Col, caseIdx int) []proto.Val {
 }
 
 func checkC08(c *core.Ctx) []core.Floor {
-	c.Rule = "schemas: every order of 1-3 columns over the four types (84) plus random 4-5 column schemas; per schema a list of single-row INSERTs each carrying one special feature (type boundary values, out-of-range INT, NULL in each position / all NULL, every single byte 0x00-0xFF and hazard strings, rows exactly at 400 bytes and at 401, wrong value type incl. wrong Go dynamic types) and UPDATEs (boundary values, growing a row to exactly 400 / 401); values SQL text can express go through Session.ExecQuery as text in half of the cases, everything also as direct values. The model predicts acceptance; accepted rows are read back exactly at four stages: immediately, after flush + reopen with a 16-page cache, after close + new process, after crash image + recovery. Distinct = (schema, feature, text/direct); non-trivial = the attempt carried a boundary / hazard feature (not a plain row)."
+	c.Rule = "schemas: every order of 1-3 columns over the four types (84) plus random 4-5 column schemas; per schema a list of single-row INSERTs each carrying one special feature (type boundary values, out-of-range INT, NULL in each position / all NULL, every single byte 0x00-0xFF and hazard strings, rows exactly at 400 bytes and at 401, wrong value type incl. wrong Go dynamic types) and UPDATEs (boundary values, growing a row to exactly 400 / 401; in every second case the session is closed and reopened twice among the UPDATEs, so that rows are changed on pages read back from the data file); values SQL text can express go through Session.ExecQuery as text in half of the cases, everything also as direct values. The model predicts acceptance; accepted rows are read back exactly at four stages: immediately, after flush + reopen with a 16-page cache, after close + new process, after crash image + recovery. Distinct = (schema, feature, text/direct); non-trivial = the attempt carried a boundary / hazard feature (not a plain row)."
 	c.Assume = []string{"SQL text cannot express negative integers, NULL, or strings containing a single quote, backslash or newline: those go through direct values only"}
 	drv := mustDriver(c, false)
 	n := 100
@@ -271,6 +271,7 @@ func runC08(c *core.Ctx, drv string, idx int) {
 	// survive the crash image at the end whichever of them were already in the
 	// data file and which only in the log
 	flushEvery := []int{0, 1, 3, 7}[idx%4]
+	reloads := 0
 	extra := make([]attempt, 0, len(upds)) // capacity fixed: pointers into it are kept
 	if flushEvery > 0 {
 		add(proto.Op{K: "flush"}, meta{kind: "other"})
@@ -278,6 +279,16 @@ func runC08(c *core.Ctx, drv string, idx int) {
 	for i := range upds {
 		if i == len(upds)/2 {
 			add(proto.Op{K: "sql", SQL: "USE D1"}, meta{kind: "other"})
+		}
+		if (i == len(upds)/3 || i == 2*len(upds)/3) && idx%2 == 0 {
+			// the session ends and another begins: the rows the next UPDATEs
+			// change sit on pages read back from the data file, not on the
+			// pages the INSERTs built in memory
+			add(proto.Op{K: "flush"}, meta{kind: "other"})
+			add(proto.Op{K: "close"}, meta{kind: "other"})
+			add(proto.Op{K: "session"}, meta{kind: "other"})
+			add(proto.Op{K: "sql", SQL: "USE d1"}, meta{kind: "other"})
+			reloads++
 		}
 		if i%5 == 2 {
 			// a fresh row in the table about to be updated, already in the data
@@ -419,6 +430,7 @@ func runC08(c *core.Ctx, drv string, idx int) {
 				ok = false
 			} else {
 				c.Count("stage_reload_small_cache", 1)
+				c.Count("sessions_ended_and_reopened_between_updates", int64(reloads))
 			}
 		}
 		if !ok {
